@@ -1,3 +1,4 @@
+import Generated.Facts
 import Model.Session
 /-! # C18 — connection set-up: CONNECT first, clean session once, resend before new
 
@@ -82,5 +83,11 @@ theorem C18_connreq_clean_bit (c : Cfg) (cid : Bytes) :
   rw [e1, e2]
   cases c.cleanSession <;> cases c.hasUser <;> cases c.password <;> cases c.will.message <;> cases c.will.retain <;>
     cases c.will.exactlyOnce <;> cases c.will.atLeastOnce <;> simp
+
+/-- REGENERATED FACT. The functions that arm a read or write deadline with `time.Now().Add(D)` – as the extractor lists them on
+every run – all do so under a condition `D != 0`; the CONNACK wait of the handshake among them: with PauseTimeout left at zero (documented: no timeout protection) a valid CONNACK is not rejected by a deadline that expired at once. -/
+theorem C18_fact_deadlines_respect_zero_timeout :
+    Facts.deadlineArming = ["BigMessage.ReadAll", "Client.discard", "Client.handshake", "Client.peekPacket", "writeBuffersTo", "writeTo"] ∧
+    Facts.deadlineArmingUnguarded = [] := by decide
 
 end Model
